@@ -22,7 +22,7 @@ class Contract:
                  raises=None, loops=(), result=None, serves=(), yields=None,
                  env=None, note='', name=None, self_obj=None, cases=None,
                  budget=None, skip_self=False, native=None,
-                 native_scope=None, always_raises=False):
+                 native_scope=None, always_raises=False, track_pulls=None):
         self.target = target
         self.params = params or {}
         self.requires = list(requires)
@@ -47,6 +47,7 @@ class Contract:
         if native_scope is not None:
             self.native_scope = native_scope
         self.always_raises = always_raises
+        self.track_pulls = track_pulls
 
     def param_order(self, fn):
         a = fn.node.args
@@ -275,6 +276,15 @@ def _run_path(world, c, params, tag, it, path, rep, first):
         if name not in formal:
             it.ghost_vars[name] = env[name]     # ghost parameter
         it.ghost_vars['old_' + name] = env[name]
+    if c.track_pulls:
+        # ghost: how many source elements had been pulled at each yield
+        src = env.get(c.track_pulls) or fr.vars.get(c.track_pulls)
+        pulls = MList(SSeq(z3.IntVal(0), z3.K(z3.IntSort(), z3.IntVal(0)),
+                           TInt, kind='list'))
+        it.ghost_vars['pulls'] = pulls
+        it.ghost_vars['SRC'] = src
+        it.yield_hooks.append(lambda it_, v, pulls=pulls, src=src: setattr(
+            pulls, 'seq', S.seq_append(pulls.seq, SInt(src.pos))))
     old = Frame(module=c.module)
     old.vars.update(fr.vars)
     for nm, v in list(fr.vars.items()) + [
@@ -290,6 +300,8 @@ def _run_path(world, c, params, tag, it, path, rep, first):
                     old.vars['OLD_' + fld] = fv.m
                 elif isinstance(fv, MList):
                     old.vars['OLD_' + fld] = fv.seq
+                else:
+                    old.vars.setdefault('OLD_' + fld, fv)
     old.vars.update(it.ghost_vars)
     old.vars.update(world.spec_helpers(it))
     for r in c.requires:
